@@ -14,6 +14,10 @@ the real code:
   * ovniemu on synthetic traces whose metadata require version strings per
     model and whose streams carry one harmless event pair per model.
 
+Tiers: quick enumerates strings up to length 6 (Version_Quick.cfg) and samples
+the emulator cases; thorough enumerates length 7 (Version.cfg) and replays every
+(events, requires, -a) configuration.
+
 Version strings around the real versions (library, every model) are built
 here as *inputs*; their verdicts come from TLC (spec/VersionCases.tla).
 Nothing in this file decides what the right outcome is.
@@ -245,6 +249,12 @@ def run_emu(bdir, streams, models, enable_all):
         shutil.rmtree(d, ignore_errors=True)
 
 
+def refused(res):
+    """A rejection is a diagnosed refusal; dying from a signal or hanging is not."""
+    v = res["verdict"]
+    return not res["accepted"] and not v.startswith("signal") and v not in ("timeout", "sanitizer")
+
+
 def emu_bundle(streams, models, enable_all, res):
     b = {"trace/" + k: v for k, v in trace_files(streams, models).items()}
     b["command.txt"] = "OVNI_CONFIG_DIR=<empty dir> ovniemu -l%s trace\n" % (" -a" if enable_all else "")
@@ -282,6 +292,7 @@ def tlc_cases(ck, cases, label):
             o = got.get(i)
             c["rv"] = o["rv"] if o else None
             c["p"] = o["p"] if o else None
+            c["pk"] = o["pk"] if o else None
         return r
     finally:
         shutil.rmtree(d, ignore_errors=True)
@@ -304,7 +315,9 @@ def main(pid, tier):
     agreed = [0]
     scratch = core.mkscratch("vercfg")
     try:
-        cfg, cfg_models = make_cfg("Version.cfg", set(mcode.values()) | {libcode}, scratch)
+        maxlen = 6 if quick else 7
+        cfg, cfg_models = make_cfg("Version_Quick.cfg" if quick else "Version.cfg",
+                                   set(mcode.values()) | {libcode}, scratch)
         if cfg_models != set(models):
             raise core.MachineryError("Models of Version.cfg %s differ from events.json %s"
                                       % (sorted(cfg_models), sorted(models)))
@@ -313,7 +326,8 @@ def main(pid, tier):
     finally:
         shutil.rmtree(scratch, ignore_errors=True)
     core.tlc_expect_ok(r, "Version")
-    ck.add_tlc(r, "Version (triples 0..3, strings <= 7 over {0,1,2,.,-,a}, 8 models: all (events, requires, -a))")
+    ck.add_tlc(r, "Version (triples 0..3, strings <= %d over {0,1,2,.,-,a}, %d models: all (events, requires, -a))"
+               % (maxlen, len(models)))
     if r.violated:
         ck.violation("Version.tla: the code-shaped layer (mirror of version.h / model.c) violates %s" % r.violated,
                      {"tlc.out": r.out[-20000:]})
@@ -328,8 +342,8 @@ def main(pid, tier):
         if isinstance(o, dict) and o.get("k") in exp:
             exp[o["k"]].append(o)
     nmod = len(models)
-    want_counts = {"pair": 4 ** 6, "str": sum(len(ALPHABET) ** k for k in range(1, 8)),
-                   "model": 2 ** (2 * nmod + 1)}
+    want_counts = {"pair": 4 ** 6, "str": sum(len(ALPHABET) ** k for k in range(1, maxlen + 1)),
+                   "model": 2 ** (2 * nmod)}       # only configurations with core events are exported
     if not r.violated:
         for k, n in want_counts.items():
             if len(exp[k]) != n:
@@ -343,7 +357,8 @@ def main(pid, tier):
     for o, got in zip(pairs, res):
         ck.case("compat %s %s" % (o["w"], o["h"]), nontrivial=o["w"][0] == o["h"][0])
         if (got == "1") != bool(o["c"]):
-            ck.violation("version_is_compatible(want=%s, have=%s) returns %s, Compatible is %s"
+            ck.violation("version_is_compatible disagrees with Compatible\n"
+                         "version_is_compatible(want=%s, have=%s) returns %s, Compatible is %s"
                          % (o["w"], o["h"], got, o["c"]),
                          {"case.json": o, "how.txt": "drivers/vercheck.c compat mode: line 'w1 w2 w3 h1 h2 h3'\n"},
                          sig="compat")
@@ -357,15 +372,15 @@ def main(pid, tier):
         f = got.split()
         rc, tup = int(f[0]), [int(x) for x in f[1:4]]
         ck.case("parse " + o["s"], nontrivial=nontrivial_string(o["s"], o["p"]))
-        huge = any(x >= 10 ** 9 for x in o["v"])
-        if o["p"] == "ok":
-            good = huge or (rc == 0 and tup == o["v"])
-        elif o["p"] == "malformed":
+        if o["pk"] == "ok":
+            good = rc == 0 and tup == o["v"]
+        elif o["pk"] == "malformed":
             good = rc != 0
         else:
-            good = rc != 0 or huge or tup == o["v"]
+            good = rc != 0 or not o["exact"] or tup == o["v"]
         if not good:
-            ck.violation("version_parse(%r) returns %d %s, Parse says %s %s" % (o["s"], rc, tup, o["p"], o["v"]),
+            ck.violation("version_parse disagrees with Parse\n"
+                         "version_parse(%r) returns %d %s, Parse says %s %s" % (o["s"], rc, tup, o["pk"], o["v"]),
                          {"case.json": o, "how.txt": "drivers/vercheck.c parse mode (hex encoded string)\n"},
                          sig="parse")
         else:
@@ -380,8 +395,9 @@ def main(pid, tier):
         ck.case("check " + o["s"], nontrivial=rv != "reject" or nontrivial_string(o["s"], o["p"]))
         good = (got == "ok") if rv == "accept" else (got == "abort") if rv == "reject" else got in ("ok", "abort")
         if not good:
-            ck.violation("ovni_version_check_str(%r) of libovni %s: %s, the spec says %s"
-                         % (o["s"], libver, got, rv),
+            ck.violation("ovni_version_check_str: outcome not allowed by the spec (%s expected)\n"
+                         "ovni_version_check_str(%r) of libovni %s: %s, the spec says %s"
+                         % (rv, o["s"], libver, got, rv),
                          {"case.json": o, "how.txt": "drivers/vercheck.c check mode (hex encoded string)\n"},
                          sig="libcheck")
         else:
@@ -396,9 +412,10 @@ def main(pid, tier):
     res = run_driver_par(drv, "require", [o["s"] for o in sel])
     for o, got in zip(sel, res):
         ck.case("require " + o["s"], nontrivial=nontrivial_string(o["s"], o["p"]))
-        good = (got == "ok") if o["p"] == "ok" else (got == "abort") if o["p"] == "malformed" else got in ("ok", "abort")
+        good = (got == "ok") if o["pk"] == "ok" else (got == "abort") if o["pk"] == "malformed" else got in ("ok", "abort")
         if not good:
-            ck.violation("ovni_thread_require(\"vtest\", %r): %s, Parse says %s" % (o["s"], got, o["p"]),
+            ck.violation("ovni_thread_require: outcome not allowed by the spec (%s string)\n"
+                         "ovni_thread_require(\"vtest\", %r): %s, Parse says %s" % (o["pk"], o["s"], got, o["pk"]),
                          {"case.json": o, "how.txt": "drivers/vercheck.c require mode (hex encoded string)\n"},
                          sig="require")
         else:
@@ -438,8 +455,10 @@ def main(pid, tier):
         good = (got == "ok") if rv == "accept" else (got == "abort") if rv == "reject" else got in ("ok", "abort")
         if not good:
             sig = "int-truncation" if (rv == "reject" and got == "ok" and wide_number([s])) else "libcheck"
-            ck.violation("ovni_version_check_str(%r) of libovni %s: %s, the spec says %s (Parse: %s)"
-                         % (s, libver, got, rv, json.dumps(c["p"])),
+            ck.violation("ovni_version_check_str: outcome not allowed by the spec (%s expected%s)\n"
+                         "ovni_version_check_str(%r) of libovni %s: %s, the spec says %s (Parse: %s)"
+                         % (rv, ", number of 10+ digits" if sig == "int-truncation" else "",
+                            s, libver, got, rv, json.dumps(c["p"])),
                          {"case.json": {k: v for k, v in c.items()},
                           "how.txt": "drivers/vercheck.c check mode, or any program calling "
                                      "ovni_version_check_str(%r)\n" % s}, sig=sig)
@@ -460,7 +479,7 @@ def main(pid, tier):
         for o in pick:
             rv = "accept" if code in o["acc"] else ("unspecified" if code in o["uns"] else "reject")
             emucases.append({"side": "emu", "model": m, "ss": [o["s"]], "h": models[m]["version"],
-                             "all": False, "rv": rv, "p": [{"kind": o["p"], "v": o["v"]}]})
+                             "all": False, "rv": rv, "p": [{"kind": o["p"], "v": o["v"]}], "pk": [o["pk"]]})
 
     def emu_version_case(c):
         m = c["model"]
@@ -478,12 +497,14 @@ def main(pid, tier):
         rv = c["rv"]
         nacc += rv == "accept"
         ck.case("emu %s %s %s" % (c["model"], json.dumps(c["ss"]), c["all"]), nontrivial=True)
-        good = res["accepted"] if rv == "accept" else (not res["accepted"]) if rv == "reject" else True
+        good = res["accepted"] if rv == "accept" else refused(res) if rv == "reject" else True
         if not good:
             sig = ("int-truncation" if (rv == "reject" and res["accepted"] and wide_number(c["ss"]))
                    else "emu-version")
-            ck.violation("ovniemu%s on a trace requiring %s %s (model version %s): %s, the spec says %s\n%s"
-                         % (" -a" if c["all"] else "", c["model"], " and ".join(repr(s) for s in c["ss"]),
+            ck.violation("ovniemu: verdict on a required model version not allowed by the spec (%s expected%s)\n"
+                         "ovniemu%s on a trace requiring %s %s (model version %s): %s, the spec says %s\n%s"
+                         % (rv, ", number of 10+ digits" if sig == "int-truncation" else "",
+                            " -a" if c["all"] else "", c["model"], " and ".join(repr(s) for s in c["ss"]),
                             c["h"], res["verdict"], rv, "\n".join(res["errors"])),
                          emu_bundle(streams, models, c["all"], res), sig=sig)
         else:
@@ -494,7 +515,7 @@ def main(pid, tier):
 
     # ---- model enabling: (events, requires, -a) from the TLC export
     names = sorted(models)
-    replayable = [o for o in exp["model"] if "ovni" in o["ev"]]
+    replayable = exp["model"]
     full = [o for o in replayable if len(o["ev"]) == nmod]
     others = [o for o in replayable if len(o["ev"]) != nmod]
     rng.shuffle(others)
@@ -521,12 +542,14 @@ def main(pid, tier):
         tv = o["tv"]
         ck.case("models ev=%s req=%s all=%s" % (sorted(o["ev"]), sorted(o["req"]), o["all"]),
                 nontrivial=len(o["ev"]) > 1)
-        good = res["accepted"] if tv == "accept" else (not res["accepted"]) if tv == "reject" else True
+        good = res["accepted"] if tv == "accept" else refused(res) if tv == "reject" else True
         desc = ("events of %s, required %s, %s" % (sorted(o["ev"]), sorted(o["req"]),
                                                     "-a" if o["all"] else "no -a"))
         if not good:
-            ck.violation("ovniemu %s a trace with %s; the spec says %s\n%s"
-                         % ("accepts" if res["accepted"] else "refuses (%s)" % res["verdict"], desc, tv,
+            ck.violation("ovniemu: model enabling, verdict not allowed by the spec (%s expected)\n"
+                         "ovniemu %s a trace with %s; the spec says %s\n%s"
+                         % (tv, "accepts" if res["accepted"] else "refuses" if refused(res)
+                            else "dies (%s) on" % res["verdict"], desc, tv,
                             "\n".join(res["errors"])),
                          emu_bundle(streams, models, o["all"], res), sig="model-enable")
             continue
@@ -540,13 +563,12 @@ def main(pid, tier):
                 if o["en"][m] == "no" and m in en:
                     bad.append("%s enabled" % m)
         if bad:
-            ck.violation("ovniemu reports the wrong set of enabled models (%s) for a trace with %s"
-                         % (", ".join(bad), desc), emu_bundle(streams, models, o["all"], res), sig="model-enable")
+            ck.violation("ovniemu reports a set of enabled models not allowed by the spec\n"
+                         "%s, for a trace with %s" % (", ".join(bad), desc), emu_bundle(streams, models, o["all"], res), sig="model-enable")
         else:
             agreed[0] += 1
     ck.notes["model_enabling_cases"] = {"replayed": len(sel), "all_models_have_events": len(full),
-                                        "enabled_report_observed": nobs,
-                                        "not_replayable_without_core_events": len(exp["model"]) - len(replayable)}
+                                        "enabled_report_observed": nobs}
     ck.phase("model_enabling")
 
     ck.cov["traces_validated_against_impl"] = agreed[0]
